@@ -10,7 +10,8 @@
 
 
 def add_or_remove_notifiers(
-        *, object, graph, handler, target, dispatcher, remove):
+        *, object, graph, handler, target, dispatcher, remove,
+        _processed=None):
     """ Add/Remove notifiers on objects following the description on an
     ObserverGraph.
 
@@ -50,6 +51,7 @@ def add_or_remove_notifiers(
         target=target,
         dispatcher=dispatcher,
         remove=remove,
+        processed=_processed,
     )
     callable_()
 
@@ -60,7 +62,8 @@ class _AddOrRemoveNotifier:
     See ``add_or_remove_notifiers`` for the input parameters.
     """
 
-    def __init__(self, *, object, graph, handler, target, dispatcher, remove):
+    def __init__(self, *, object, graph, handler, target, dispatcher, remove,
+                 processed=None):
         self.object = object
         self.graph = graph
         self.handler = handler
@@ -68,8 +71,11 @@ class _AddOrRemoveNotifier:
         self.dispatcher = dispatcher
         self.remove = remove
 
-        # list of (notifier, observable)
-        self._processed = []
+        # list of (notifier, observable), shared with the calls made for
+        # children and extra graphs so that a failure anywhere in the walk
+        # is undone completely by the outermost call.
+        self._is_outermost = processed is None
+        self._processed = [] if processed is None else processed
 
     def __call__(self):
         """ Main function for adding/removing notifiers.
@@ -94,15 +100,17 @@ class _AddOrRemoveNotifier:
                 step()
         except Exception:
             # Undo and then reraise
-            while self._processed:
-                notifier, observable = self._processed.pop()
-                if self.remove:
-                    notifier.add_to(observable)
-                else:
-                    notifier.remove_from(observable)
+            if self._is_outermost:
+                while self._processed:
+                    notifier, observable = self._processed.pop()
+                    if self.remove:
+                        notifier.add_to(observable)
+                    else:
+                        notifier.remove_from(observable)
             raise
         else:
-            self._processed.clear()
+            if self._is_outermost:
+                self._processed.clear()
 
     def _add_or_remove_extra_graphs(self):
         """ Add or remove additional ObserverGraph contributed by the root
@@ -116,6 +124,7 @@ class _AddOrRemoveNotifier:
                 target=self.target,
                 dispatcher=self.dispatcher,
                 remove=self.remove,
+                _processed=self._processed,
             )
 
     def _add_or_remove_children_notifiers(self):
@@ -130,6 +139,7 @@ class _AddOrRemoveNotifier:
                     target=self.target,
                     dispatcher=self.dispatcher,
                     remove=self.remove,
+                    _processed=self._processed,
                 )
 
     def _add_or_remove_maintainers(self):
